@@ -161,7 +161,8 @@ class Injected(Exception):
 class Tap(object):
     """Wraps `walker.functions[...]` (or another dispatch dict) and `walker.stack`."""
 
-    def __init__(self, walker, fun_dict=None, fail_at=None, fail_nodes=(), limit=None):
+    def __init__(self, walker, fun_dict=None, fail_at=None, fail_nodes=(), limit=None, max_calls=None):
+        self.max_calls = max_calls
         self.walker = walker
         self.d = walker.functions if fun_dict is None else fun_dict
         self.saved = dict(self.d)
@@ -191,6 +192,8 @@ class Tap(object):
             except TypeError:
                 key = formula
             tap.trace.append(key)
+            if tap.max_calls is not None and len(tap.trace) > tap.max_calls:
+                raise Runaway(len(tap.trace))
             if tap.fail_at is not None and len(tap.trace) == tap.fail_at:
                 raise Injected(len(tap.trace))
             if key in tap.fail_nodes:
@@ -412,7 +415,7 @@ def build_family(env, shape, kind, k):
             m2 = m.Symbol("m2", types.ArrayType(INT, ARR))
             t = x
             for i in range(k):
-                t = m.Select(m.Select(m2, t), m.Plus(t, m.Int(i % 2)))
+                t = m.Select(m.Select(m2, t), t) if i % 3 else m.Select(m.Select(m2, t), m.Plus(t, m.Int(1)))
             leaf, rep = x, y
         elif kind == "str_let":         # string operators that the DAG printer binds with let
             s0, s1 = m.Symbol("s0", types.STRING), m.Symbol("s1", types.STRING)
@@ -660,7 +663,7 @@ def run_op(ctx, spec, env, fam, fail_at=None, want_full=False):
     fd = spec.fun_dict(w) if spec.fun_dict else None
     tap = Tap(w, fun_dict=fd, fail_at=fail_at, limit=20 * (len(order) + sum(len(c) for c in chl)) + 1000)
     # the free-variables oracle is called from inside the callbacks of other walkers: count its work, too
-    fvo_tap = Tap(env.fvo) if w is not env.fvo else None
+    fvo_tap = Tap(env.fvo, max_calls=20 * len(order) + 1000) if w is not env.fvo else None
     t0 = time.time()
     exc = None
     try:
